@@ -2,6 +2,7 @@ package sqlparse
 
 //verif:dir internal/sqlparse
 //verif:bound one statement SELECT <leaf> FROM t (or SELECT a FROM <leaf>, SELECT a AS <leaf> FROM t) in the SQLite dialect, where the leaf is a quoted identifier in one of the three quoting styles ("..", `..`, [..]) whose content is any string of 1..4 (quick) / 1..5 (thorough) bytes over letters, digits and _ $ space . ' " ` [ ], or a string literal whose content is any string of 0..4 bytes over the same alphabet plus backslash
+//verif:bound SELECT a FROM t with a row window in each of its three spellings (LIMIT n / LIMIT n OFFSET m / LIMIT m, n) where n and m are arbitrary 1..2-digit numbers
 //verif:assume ASCII content only (the lexer works on runes; non-ASCII letters are never keywords)
 //verif:outside every other syntactic form (expression operators, clauses, DDL): formatting of whole statements is outside this claim; executing the reformatted text against SQLite; the PostgreSQL dialect (always quotes)
 
@@ -141,4 +142,66 @@ func VerifC16_stringLiteralSurvivesFormatting() {
 	}
 	lit += "'"
 	c16RoundTrip("SELECT "+lit+" FROM t", 0, "literal:"+ast.LitString.String(), text)
+}
+
+func c16Digits(label string) string {
+	d := sym.String(label, 2)
+	sym.Assume(len(d) >= 1)
+	for i := 0; i < len(d); i++ {
+		sym.Assume(d[i] >= '0' && d[i] <= '9')
+	}
+	return d
+}
+
+func c16Limit(p *Sqlparse) (count, offset string, ok bool) {
+	sel, isSel := p.stmt.(*ast.SelectStmt)
+	if !isSel || sel.Limit == nil {
+		return "", "", false
+	}
+	c, isLit := sel.Limit.Limit.(*ast.Literal)
+	if !isLit {
+		return "", "", false
+	}
+	if sel.Limit.Offset == nil {
+		return c.Value, "", true
+	}
+	o, isLit := sel.Limit.Offset.(*ast.Literal)
+	if !isLit {
+		return "", "", false
+	}
+	return c.Value, o.Value, true
+}
+
+// VerifC16_limitClauseKeepsCountAndOffset: the three spellings of a row window
+// (LIMIT n, LIMIT n OFFSET m, and sqlite3's LIMIT m, n whose FIRST number is the
+// offset) are read as written and keep count and offset through reformatting.
+func VerifC16_limitClauseKeepsCountAndOffset() {
+	a, b := c16Digits("first"), c16Digits("second")
+	var src, wantCount, wantOffset string
+	switch sym.Choice("spelling", 3) {
+	case 0:
+		src, wantCount, wantOffset = "SELECT a FROM t LIMIT "+a, a, ""
+	case 1:
+		src, wantCount, wantOffset = "SELECT a FROM t LIMIT "+a+" OFFSET "+b, a, b
+	default:
+		src, wantCount, wantOffset = "SELECT a FROM t LIMIT "+a+", "+b, b, a
+	}
+	p1, err := New(src, SQLite)
+	sym.Assert(err == nil, "a plain row-window clause was not accepted")
+	if err != nil {
+		return
+	}
+	c1, o1, ok := c16Limit(p1)
+	sym.Reach("parsed")
+	sym.Assert(ok && c1 == wantCount && o1 == wantOffset, "the parser mixed up the row count and the offset of a LIMIT clause")
+	f := p1.Format()
+	sym.Observe("formatted", f)
+	p2, err := New(f, SQLite)
+	sym.Assert(err == nil, "the reformatted text of an accepted statement no longer parses")
+	if err != nil {
+		return
+	}
+	c2, o2, ok2 := c16Limit(p2)
+	sym.Assert(ok2 && c2 == wantCount && o2 == wantOffset, "reformatting changed the row count or the offset of a LIMIT clause")
+	sym.Assert(p2.Format() == f, "reformatting the reformatted text changed it again")
 }
